@@ -139,7 +139,32 @@ def handleParseToks (fields : List String) : String :=
       resStrP r ++ "\t" ++ cmp ++ "\t" ++ gs
   | _ => "BADCASE"
 
+def sameRes (a b : Parser.Res (List Cmd)) : Bool :=
+  match a, b with
+  | .ok x _, .ok y _ => beqCmds x y
+  | .error _ _, .error _ _ => true
+  | _, _ => false
+
+/-- `layoutpair <tokens A> <tokens B> <go result for B>`: the hypothesis and the conclusion of
+`C15_parser_layout` evaluated on a concrete pair, then `parsetoks` for B.
+Answer: `STRIPEQ T|F <TAB> MODELSAME T|F <TAB> <parsetoks answer for B>` -/
+def handleLayoutPair (fields : List String) : String :=
+  match fields with
+  | ta :: tb :: gores :: _ =>
+    match ((ta.splitOn " ").filter (· ≠ "")).mapM tokenOf, ((tb.splitOn " ").filter (· ≠ "")).mapM tokenOf with
+    | some pa, some pb =>
+      let tsa := pa.map (·.1)
+      let tsb := pb.map (·.1)
+      let rx := mkRx ((pa ++ pb).filterMap (·.2))
+      let se := decide (strip tsa = strip tsb)
+      let ms := sameRes (Parser.parse rx tsa) (Parser.parse rx tsb)
+      "STRIPEQ " ++ boolStr se ++ "\tMODELSAME " ++ boolStr ms ++ "\t" ++ handleParseToks [tb, gores]
+    | _, _ => "BADCASE tokens"
+  | _ => "BADCASE"
+
 def handleParse (op : String) (fields : List String) : Option String :=
-  if op == "parsetoks" then some (handleParseToks fields) else none
+  if op == "parsetoks" then some (handleParseToks fields)
+  else if op == "layoutpair" then some (handleLayoutPair fields)
+  else none
 
 end Vore.Driver
